@@ -382,7 +382,7 @@ func genSeqPlan(prop string, seed uint64, tier string) *Plan {
 			p.Ops = append(p.Ops, Op{ID: idBase, Kind: "set", K: k, V: ValSpec{Class: VConst, Len: r.Range(8, 20), Seed: uint32(r.U64())}})
 		}
 	}
-	if (prop == "C03" || prop == "C18" || prop == "C07" || prop == "C13" || prop == "C08") && len(c.Served) > 0 && p.Extra["benignCollide"] == 0 && r.Bool(2, 5) {
+	if (prop == "C03" || prop == "C18" || prop == "C07" || prop == "C13" || prop == "C08" || prop == "C17") && len(c.Served) > 0 && p.Extra["benignCollide"] == 0 && r.Bool(2, 5) {
 		// scenario template: short first file, overwrites/deletes of its keys in later files, a
 		// restart that rebuilds the tree (tombstones leave the index), a pass that does not start
 		// at file 0, a restart with rebuilt indexes, then the usual random tail
